@@ -34,7 +34,7 @@ theorem ReachableB.bound {s : Store} (h : ReachableB s) : PlanBound s := by
 theorem allCInv_step_bounded (s : Store) (op : Op) (h : AllCInv s) (hb : PlanBound s)
     (hb' : PlanBound (step s op)) : AllCInv (step s op) := by
   cases op with
-  | addProxy a n0 n1 host => exact allCInv_step h (storeInv_addProxy s a n0 n1 host h)
+  | addProxy a n0 n1 host i => exact allCInv_step h (storeInv_addProxy s a n0 n1 host i h)
   | removeProxy a => exact allCInv_step h (storeInv_removeProxy s a h)
   | addCluster n k c => exact step_addCluster_inv s n k c h hb'
   | removeCluster n => exact allCInv_step h (storeInv_removeCluster s n h)
@@ -52,6 +52,10 @@ theorem allCInv_step_bounded (s : Store) (op : Op) (h : AllCInv s) (hb : PlanBou
   | bumpAll e => exact allCInv_step h (storeInv_forceBumpAllEpoch s e h)
   | recover e => exact allCInv_step h (storeInv_recoverEpoch s e h)
   | addFailure a r t => exact allCInv_step h (storeInv_addFailure s a r t h)
+  | setOrdered =>
+    refine allCInv_step h ?_
+    show StoreInv s.setOrdered
+    exact StoreInv.of_clusters_eq h (by unfold Store.setOrdered; split <;> rfl)
 
 /-- **store invariants of C01 on every boundedly reachable store** -/
 theorem cinv_reachableB : ∀ s, ReachableB s → ∀ c ∈ s.clusters, PosInv c ∧ TwinInv c ∧ SlotInv c := by
